@@ -75,3 +75,45 @@ Proof.
   - intros k H. eapply send_no_more_retries_is_budget; eauto.
   - intros -> HT. now apply send_stopped_needs_stop.
 Qed.
+
+(* ---- a hand-off made in several pieces ---- *)
+From Coq Require Import Permutation.
+
+Lemma combine_final_iff l :
+  combine_outcomes l <> OShutdown <-> Forall (fun o => o <> OShutdown) l.
+Proof.
+  unfold combine_outcomes. destruct (existsb is_shutdown_outcome l) eqn:E.
+  - split; [congruence|]. intros HF _. apply existsb_exists in E as (o & Hin & Ho).
+    rewrite Forall_forall in HF. specialize (HF o Hin). destruct o; try discriminate. congruence.
+  - split.
+    + intros _. apply Forall_forall. intros o Hin ->.
+      assert (existsb is_shutdown_outcome l = true) by (apply existsb_exists; exists OShutdown; auto). congruence.
+    + intros _. destruct (existsb is_failed_outcome l); discriminate.
+Qed.
+
+Lemma combine_ok_iff l : combine_outcomes l = OOk <-> Forall (fun o => o = OOk) l.
+Proof.
+  unfold combine_outcomes. split.
+  - intros H. apply Forall_forall. intros o Hin.
+    destruct (existsb is_shutdown_outcome l) eqn:E1; [discriminate|].
+    destruct (existsb is_failed_outcome l) eqn:E2; [discriminate|].
+    destruct o; auto.
+    + assert (existsb is_failed_outcome l = true) by (apply existsb_exists; exists OFailed; auto). congruence.
+    + assert (existsb is_shutdown_outcome l = true) by (apply existsb_exists; exists OShutdown; auto). congruence.
+  - intros HF. rewrite Forall_forall in HF.
+    destruct (existsb is_shutdown_outcome l) eqn:E1.
+    { apply existsb_exists in E1 as (o & Hin & Ho). rewrite (HF o Hin) in Ho. discriminate. }
+    destruct (existsb is_failed_outcome l) eqn:E2; [|reflexivity].
+    apply existsb_exists in E2 as (o & Hin & Ho). rewrite (HF o Hin) in Ho. discriminate.
+Qed.
+
+Lemma existsb_perm {A} (f : A -> bool) l l' : Permutation l l' -> existsb f l = existsb f l'.
+Proof.
+  induction 1; simpl; auto.
+  - now rewrite IHPermutation.
+  - destruct (f x), (f y); reflexivity.
+  - congruence.
+Qed.
+
+Lemma combine_perm l l' : Permutation l l' -> combine_outcomes l = combine_outcomes l'.
+Proof. intros P. unfold combine_outcomes. now rewrite (existsb_perm _ _ _ P), (existsb_perm is_failed_outcome _ _ P). Qed.
